@@ -209,7 +209,29 @@ def run(chk, repo):
     expr = f'({ev_}.is_fusion() or {ev_}.is_circ_rna() or {ev_}.is_splice_altering() or all(exprs[tx] >= cutoff for tx in {TX}))'
     want_e = ast.parse(f'False if ({deny} and not (keep_canonical and {canon})) else (True if (keep_all_noncoding and {allnc}) else '
                        f'(True if (keep_all_coding and {allc}) else (True if exprs is None else {expr})))', mode='eval').body
-    if got is None:
+    stale = []
+    if got is None and ec19 is not None:
+        # is a flag the emission reads assigned on every path of the iteration?  If not it carries the previous entry's value.
+        import copy as _cp
+        syn = ast.parse('def _it():\n    for _e in _es:\n        pass').body[0]
+        syn.body[0].body = _cp.deepcopy(eloops[0].body)
+        ast.fix_missing_locations(syn)
+        flags0 = {n.id for n in ast.walk(ec19[0]) if isinstance(n, ast.Name)} & {t.id for st_ in ast.walk(f.node) if isinstance(st_, ast.Assign) for t in st_.targets if isinstance(t, ast.Name)}
+        for fl in sorted(flags0):
+            def _tr(st_, S, fl=fl):
+                if isinstance(st_, (ast.Assign, ast.AnnAssign)) and any(isinstance(t, ast.Name) and t.id == fl for t in (st_.targets if isinstance(st_, ast.Assign) else [st_.target])):
+                    return frozenset(S | {'set'})
+                return S
+            cfg_s, st_s = _s19.must_set_flow(syn, _tr)
+            for n_ in cfg_s.nodes:
+                if n_.kind == 'stmt' and is_keep(n_.ast) or (n_.kind == 'test' and any(isinstance(x, ast.Name) and x.id == fl for x in ast.walk(n_.ast))):
+                    if st_s.get(n_.id) is not None and 'set' not in st_s[n_.id]:
+                        stale.append(fl)
+    if stale:
+        chk.ob('C19.e', 'denylist -> noncoding -> coding -> expression', repo.loc(f, loop), False,
+               f"the flag(s) {sorted(set(stale))} that decide whether an entry is kept are not assigned on every path of the iteration over the entries: "
+               'an entry that takes such a path is kept or dropped by the decision made for the PREVIOUS entry', key=F + '::decision-order', fn=f.qual)
+    elif got is None:
         chk.undecided('C19.e', 'denylist -> noncoding -> coding -> expression', repo.loc(f, loop), 'the value of should_keep could not be expressed as one decision', key=F + '::decision-order', fn=f.qual)
     else:
         eqv, wit = _s19.tt_equal(got, want_e)
